@@ -10,6 +10,7 @@ from .headers import HeaderwordInfo
 from .conversion_utils import run_conversion_loop
 from .read import SgzReader
 from .sgzconstants import DISK_BLOCK_BYTES, SEGY_FILE_HEADER_BYTES
+from .version import SeismicZfpVersion
 from .seismicfile import SeismicFile, Filetype
 from .utils import (pad,
                     define_blockshape_2d,
@@ -373,8 +374,12 @@ class SgzConverter(SgzReader):
                                        u*self.chunk_bytes + (z+1)*self.unit_bytes]
                         outfile.write(new_block)
             self.read_variant_headers()
-            for k, header_array in self.variant_headers.items():
-                outfile.write(header_array.tobytes())
+            for k in self.stored_header_keys:
+                header_array_bytes = self.variant_headers[k].tobytes()
+                if self.file_version > SeismicZfpVersion("0.2.1"):
+                    # Readers of these versions expect every array padded to a multiple of 512 bytes
+                    header_array_bytes += bytes(-len(header_array_bytes) % 512)
+                outfile.write(header_array_bytes)
 
 
 class NumpyConverter(object):
